@@ -1,4 +1,4 @@
-import FpgoVerif.Proofs.C04MapSpec
+import FpgoVerif.Proofs.C04Sort
 import FpgoVerif.Gen.StreamEffects
 /-! Property theorems for C04 — Stream / Set / StreamSet are persistent.
 
@@ -240,6 +240,26 @@ theorem C04_map_laws {β : Type} [BEq β] (k : Int) (m m₂ : List (Int × β)) 
    Spec.lookup_merge k m m₂, Spec.lookup_removeKeys k m, Spec.lookup_interByKey k m m₂,
    Spec.lookup_minusByKey k m m₂, fun f => Spec.lookup_mapVals k f m,
    fun vals kv => by simp [List.mem_filter]⟩
+
+/-! ### Sort / SortByIndex -/
+
+/-- `Sort(cmp)` and `SortByIndex(cmp)` return a stream holding `Spec.sortBy cmp` of the receiver's elements
+    (for `SortByIndex` the comparator reads the live receiver, which is sorted in place and then restored:
+    `C04_step_persistent`). -/
+theorem C04_sort_content {w : World} (hw : Wf w) {p : Nat} (hp : p < w.strs.length) (less : Int → Int → Bool) :
+    (w.strSort p less).1.strContent (w.strSort p less).2 = Spec.sortBy less (w.strContent p) ∧
+    (w.strSortByIndex p less).1.strContent (w.strSortByIndex p less).2 = Spec.sortBy less (w.strContent p) :=
+  ⟨strSort_content w p less, strSortByIndex_content hw hp less⟩
+
+/-- what `Spec.sortBy` is, for a strict weak order (every comparator of the harness family is one): a permutation
+    of the input, ordered by the comparator, and STABLE — elements the comparator does not distinguish keep their
+    input order.  These three determine the result uniquely (`C19.stable_sorted_unique`). -/
+theorem C04_sortBy_spec {less : Int → Int → Bool} (h : C19.StrictWeak less) (l : List Int) :
+    (Spec.sortBy less l).Perm l ∧ (Spec.sortBy less l).Pairwise (fun a b => less b a = false) ∧
+    ∀ x, (Spec.sortBy less l).filter (C19.equivBy less x) = l.filter (C19.equivBy less x) :=
+  ⟨C19.sortBy_perm less l, C19.sortBy_pairwise h l, C19.sortBy_filter_equiv h l⟩
+
+theorem C04_comparators_strictWeak (k : Nat) : C19.StrictWeak (Spec.lessFn k) := lessFn_strictWeak k
 
 /-! ### results: the elements the sequence definition prescribes -/
 
